@@ -137,8 +137,6 @@ def judge(ctx, recs, summ, params):
         if r['status'] in ('unsupported', 'inconclusive'):
             inconclusive.append('%s: %s %s' % (r['status'], r.get('detail'), r.get('where', '')))
     inconclusive = sorted(set(inconclusive))
-    if summ.get('truncated'):
-        inconclusive.append('exploration truncated with %d prefixes unexplored' % summ['unexplored_prefixes'])
     covers = set()
     for r in recs:
         covers.update(r.get('covers', []))
